@@ -222,6 +222,10 @@ class Interp:
                 return {x for x in left if any(x is y or x == y for y in right)}
         return Sym(_BINSYM.get(type(op), type(op).__name__), left, right)
 
+    def aug_assign(self, op, cur, value, node):
+        """`cur op= value`; rules that care about in-place updates of array stand-ins override this."""
+        return self.binop(op, cur, value, node)
+
     def unaryop(self, op, v, node):
         if isinstance(op, ast.USub):
             if _plain(v):
@@ -405,7 +409,7 @@ class Interp:
                 self.assign(s.target, self.eval(s.value, env, mod), env, mod)
         elif isinstance(s, ast.AugAssign):
             cur = self.eval(_load(s.target), env, mod)
-            v = self.binop(s.op, cur, self.eval(s.value, env, mod), s)
+            v = self.aug_assign(s.op, cur, self.eval(s.value, env, mod), s)
             self.assign(s.target, v, env, mod)
         elif isinstance(s, ast.Expr):
             self.eval(s.value, env, mod)
